@@ -259,6 +259,9 @@ func c02BlockDocs(thorough bool, f func(doc []Blk)) {
 		conts2 = append(conts2, ulist(true, []Blk{para(w("p")), in}), ulist(true, []Blk{para(w("p")), in}, []Blk{para(w("q"))}))
 		conts2 = append(conts2, ulist(false, []Blk{in}, []Blk{para(w("q"))}), ulist(false, []Blk{para(w("p")), in}), olist(1, false, []Blk{in, para(w("q"))}))
 		conts2 = append(conts2, olist(1, true, []Blk{para(w("p")), in}))
+		if in.K == bList {
+			conts2 = append(conts2, ulist(false, []Blk{para(w("p")), in}, []Blk{para(w("q"))}), olist(1, false, []Blk{para(w("p"))}, []Blk{para(w("q")), in}))
+		}
 	}
 	var all []Blk
 	all = append(all, leaves...)
@@ -482,6 +485,41 @@ func runC02(r *core.Run) {
 		}
 	}
 
+	// container chains of every depth
+	{
+		maxN := core.Pick(r, 80, 160)
+		type chain struct {
+			doc  []Blk
+			n, k int
+		}
+		var chains []chain
+		c02DepthChains(maxN, func(doc []Blk, n, k int) { chains = append(chains, chain{doc, n, k}) })
+		s := r.Sub("depth-chains", fmt.Sprintf("container chains of EVERY depth n = 1..%d in six patterns (bullet lists, ordered lists, block quotes, alternations): each level holds a paragraph and the next level; one level k (every k for n ≤ 8, else 1, 2, n/2, n-1, n) has a second item, tight or loose — %d model documents, each in every spelling vector with ≤1 deviation for n ≤ 6 and in the default spelling beyond; output must equal the reference renderer's HTML", maxN, len(chains)))
+		core.ForEachIndex(len(chains), core.Workers(), func(wk int) func(int) {
+			cv := core.NewConv(cfg)
+			return func(i int) {
+				c := chains[i]
+				dd := 0
+				if c.n <= 6 {
+					dd = 1
+				}
+				n := c02Doc(s, cv, c.doc, dd, fmt.Sprintf("depth-chain n=%d k=%d", c.n, c.k))
+				// the same with the only blank line of a loose level behind the deepest line (between the items)
+				n += c02DocPrefer(s, cv, c.doc, 0, fmt.Sprintf("depth-chain n=%d k=%d, loose by the gap between items only", c.n, c.k), map[string]int{"item-blocks-blank-line": 1})
+				s.Evals.Add(n)
+				s.States.Add(1)
+				if i%(len(chains)/5+1) == 0 {
+					md, _ := PrintMarkdown(c.doc, nil)
+					s.AddSample(core.Q([]byte(md)))
+				}
+				s.Distinct(core.Hash([]byte(RefHTML(c.doc))))
+			}
+		}, r.Expired)
+		s.Transitions.Store(s.Evals.Load())
+		s.Bound = fmt.Sprintf("%d model documents, depth ≤ %d", len(chains), maxN)
+		s.Done()
+	}
+
 	// block-structure documents
 	var docs [][]Blk
 	c02BlockDocs(thorough, func(doc []Blk) { docs = append(docs, doc) })
@@ -502,6 +540,64 @@ func runC02(r *core.Run) {
 	s.Transitions.Store(s.Evals.Load())
 	s.Bound = fmt.Sprintf("%d model documents × deviations≤%d", len(docs), d)
 	s.Done()
+}
+
+// c02DepthChains returns container chains of EVERY depth n = 1..maxN: level i is a bullet list, an ordered list or a block
+// quote (five patterns) whose single item / body holds a paragraph and the next level; at one level k (every k for small n,
+// else k ∈ {1, 2, n/2, n-1, n}) the list gets a second item, tight (no blank line) or loose (a blank line between the
+// items). Anything that is kept per open block or per line (blank-line statistics, container stacks, indentation
+// arithmetic) crosses each of its thresholds at some n.
+func c02DepthChains(maxN int, f func(doc []Blk, n, k int)) {
+	kinds := [][]int{{0}, {1}, {2}, {0, 2}, {0, 1}, {2, 2, 0}}
+	for _, pat := range kinds {
+		for n := 1; n <= maxN; n++ {
+			ks := map[int]bool{0: true}
+			if n <= 8 {
+				for k := 1; k <= n; k++ {
+					ks[k] = true
+				}
+			} else {
+				for _, k := range []int{1, 2, n / 2, n - 1, n} {
+					ks[k] = true
+				}
+			}
+			for k := 0; k <= n; k++ {
+				if !ks[k] {
+					continue
+				}
+				if k > 0 && pat[(k-1)%len(pat)] == 2 {
+					continue // level k is a quote: no second item
+				}
+				for _, tight := range []bool{true, false} {
+					if k == 0 && !tight {
+						continue
+					}
+					var build func(level int) Blk
+					build = func(level int) Blk {
+						kind := pat[(level-1)%len(pat)]
+						body := []Blk{para(w("a"))}
+						if level < n {
+							body = append(body, build(level+1))
+						}
+						switch kind {
+						case 2:
+							return quote(body...)
+						case 1:
+							if level == k {
+								return olist(1, tight, body, []Blk{para(w("b"))})
+							}
+							return olist(1, true, body)
+						}
+						if level == k {
+							return ulist(tight, body, []Blk{para(w("b"))})
+						}
+						return ulist(true, body)
+					}
+					f([]Blk{build(1)}, n, k)
+				}
+			}
+		}
+	}
 }
 
 // c02TabDocs returns the list/quote/code model documents of the tab sub-check.
